@@ -315,6 +315,7 @@ type alMatOpts struct {
 	open    int
 	anyGaps bool // gap scores may be positive (outside Local's domain: Global only)
 	harsh   bool // a mismatch costs more than a deletion plus an insertion: optimal alignments put gaps of both kinds side by side
+	badSelf bool // one letter scores worse against itself than a deletion plus an insertion (a masked base): the diagonal is not always best
 }
 
 func alGenMatrix(r *rand.Rand, name string, letters []byte, o alMatOpts) alTable {
@@ -343,6 +344,11 @@ func alGenMatrix(r *rand.Rand, name string, letters []byte, o alMatOpts) alTable
 		if o.harsh {
 			sc[[2]int{int(x), align.Gap}], sc[[2]int{align.Gap, int(x)}] = -r.Intn(2), -1
 		}
+	}
+	if o.badSelf {
+		x := int(letters[0])
+		sc[[2]int{x, x}] = -6 - r.Intn(4)
+		sc[[2]int{x, align.Gap}], sc[[2]int{align.Gap, x}] = -r.Intn(2), -1
 	}
 	if o.sym {
 		for _, x := range letters {
@@ -526,6 +532,15 @@ func buildAlignPlan(prop string) (*alPlan, error) {
 	// F1h: mismatches dearer than a deletion plus an insertion (gaps of both kinds end up adjacent): every pair up to length 4
 	for i, o := range opens(2 * mult) {
 		t := pb.table(alGenMatrix(r, fmt.Sprintf("harsh-2-%d", i), l2, alMatOpts{sym: i%2 == 0, open: o, harsh: true}))
+		for _, a := range s2 {
+			for _, b := range s2 {
+				pb.call(t, a, b)
+			}
+		}
+	}
+	// F1n: a letter that scores worse against itself than a deletion plus an insertion: every pair up to length 4
+	for i, o := range opens(2) {
+		t := pb.table(alGenMatrix(r, fmt.Sprintf("badself-2-%d", i), l2, alMatOpts{sym: i%2 == 0, open: o, badSelf: true}))
 		for _, a := range s2 {
 			for _, b := range s2 {
 				pb.call(t, a, b)
